@@ -124,8 +124,8 @@ def reference_outcome(spec: dict[str, Any], **kw: Any) -> dict[str, Any]:
 
 def explore_exhaustive(spec: dict[str, Any], depth: int, visit: Callable[[Run, list[int]], None], max_redeliver: int = 2,
                        max_runs: int = 200000, make_run: Callable[[dict[str, Any], Schedule], Run] | None = None,
-                       roots: list[list[int]] | None = None, expand: bool = True) -> tuple[int, list[list[int]]]:
-    """All schedules whose first ``depth`` decisions range over (pending row x ack/lose), FIFO afterwards.
+                       roots: list[list[int]] | None = None, expand: bool = True, offset: int = 0) -> tuple[int, list[list[int]]]:
+    """All schedules whose decisions [offset, offset+depth) range over (pending row x ack/lose), FIFO before and afterwards.
     Stateless DFS: a vector is identified with its trailing zeros stripped, so each is run exactly once.
     ``roots``: start from these prefixes instead of the empty one (sharding); ``expand=False``: run only the
     roots and return their children (used to split the tree over processes)."""
@@ -134,15 +134,15 @@ def explore_exhaustive(spec: dict[str, Any], depth: int, visit: Callable[[Run, l
     children: list[list[int]] = []
     while stack and runs < max_runs:
         prefix = stack.pop()
-        sched = _Recording(prefix, max_redeliver, depth)
+        sched = _Recording([0] * offset + prefix, max_redeliver, depth + offset)
         run = make_run(spec, sched) if make_run else Run(spec, sched)
         run.drain()
         runs += 1
         visit(run, prefix)
         for p in range(len(prefix), depth):
-            if p >= len(sched.widths):
+            if p + offset >= len(sched.widths):
                 break
-            for v in range(1, 2 * sched.widths[p]):
+            for v in range(1, 2 * sched.widths[p + offset]):
                 child = prefix + [0] * (p - len(prefix)) + [v]
                 (stack if expand else children).append(child)
     return runs, children
